@@ -95,6 +95,11 @@ CHECKS = {
         "in-range and out-of-range integers; every pattern of <= 2 tokens) and checks the declarative shortest/longest clause (RemovalSound) and SubstrSound on every value; the 112k results are compared with the real shell's.",
    note="Trusted: TLC, bash 5.2.15 (0 disagreements with the model on the enumerated domain), C.UTF-8. Not yet in the spec: ${!v}, ${!a[@]}, array/positional slicing, @-transformations (see C13 for @Q), arithmetic-expression offsets.",
    ref="DESIGN.md section 6 C06"),
+ "C14": dict(level=MC, thorough=True, tech="TLA+ Printer.tla: token-level model of the printer's separator rule for redirection lists with the soundness property (no two tokens fuse), model-checked in its repaired and as-found forms, and the round-trip protocol (FixedPoint, SameBehaviour) checked on real definitions: bodies generated by TLC from InterpGen.tla (profiles C18, C02) and hand-written bodies, printed by declare -f, re-read by brush and by bash, printed again, run three ways",
+   text="For ~2700 function bodies (quick) the shell prints the function, defines it afresh from the printed text and prints it again: the two texts must be identical, brush and bash must both accept the text, and the original, "
+        "the re-read function and the function exported to a child shell (BASH_FUNC_F%%) must produce the same output and status; bash running brush's text must behave like bash running the original source.",
+   note="Trusted: TLC (generation, Printer.tla's soundness check), bash 5.2.15. The TLA+ model covers the separator rule only; the other node printers are exercised through the protocol, not modelled. One recorded finding (nested subshells re-read as arithmetic, pinned by a parser snapshot).",
+   ref="DESIGN.md section 6 C14"),
  "C15": dict(level=MC, thorough=True, tech="TLA+ Interp.tla predictions replayed through five delivery modes (file, -c, stdin, source, eval) with $LINENO probes; (completeness and cache-transparency parts: Complete.tla / Caches.tla with in-process harness, when present)",
    text="One model prediction per TLC-generated program must be reproduced by the real shell in every delivery mode, and the $LINENO values of the probes must equal bash's in the same mode "
         "(and the renderer's line map outside eval / command substitution). Parts (b) input completeness and (c) parse-cache transparency are decided by their own specifications when built (evidence lists which parts ran).",
